@@ -17,10 +17,12 @@ theorem ArgTokOK.flatP {ms0 : List Macro} {t : Tok} (h : ArgTokOK ms0 t) : FlatP
 def iP (ms0 : List Macro) (t : Tok) : Item := .tok (mkHp ms0 [] t)
 
 /-- the stored argument `a` is the complete macro replacement of the tokens `raw` (when the
-parameter is used outside `#`), and it is not empty -/
+parameter is used outside `#`), and it is not empty; its string is the spelling of `raw` (when the
+parameter is used with `#`) -/
 def ArgRel (ms0 : List Macro) (p : Param) (raw : List Tok) (a : Arg) : Prop :=
-  p.ftok = true → LinkE (tblF ms0) (raw.map (iP ms0)) (a.toks.map (mkHp ms0 [])) [] ∧ a.toks ≠ [] ∧
-    ∀ x ∈ a.toks, FlatP ms0 x
+  (p.ftok = true → LinkE (tblF ms0) (raw.map (iP ms0)) (a.toks.map (mkHp ms0 [])) [] ∧ a.toks ≠ [] ∧
+    ∀ x ∈ a.toks, FlatP ms0 x) ∧
+  (p.fstr = true → a.str = strTok (stringizeAll raw))
 
 inductive ArgsRel (ms0 : List Macro) : List Param → List (List Tok) → List Arg → Prop where
   | nil (ps : List Param) : ArgsRel ms0 ps [] []
@@ -191,26 +193,27 @@ theorem argLoopP (ms0 : List Macro) (k : Nat) (st st2 : St) (g : GoodP ms0 st)
 (`ArgTokOK`) and of complete invocations of function-like macros, themselves of this form -/
 inductive ArgsOK (ms0 : List Macro) : List Tok → List Tok → Prop where
   | done (rest : List Tok) : ArgsOK ms0 rest rest
-  | tok (t : Tok) (L rest : List Tok) (h : ArgTokOK ms0 t) (more : ArgsOK ms0 L rest) : ArgsOK ms0 (t :: L) rest
+  | tok (t : Tok) (L rest : List Tok) (h : ArgTokOK ms0 t) (hs : Spellable t) (more : ArgsOK ms0 L rest) :
+      ArgsOK ms0 (t :: L) rest
   | call (G lp : Tok) (r'' : List Tok) (FG : Macro) (argsG : List (List Tok)) (rest'' rest : List Tok)
       (h1 : G.kind = .TIDENT) (h2 : G.hide = false) (h3 : macroget ms0 (G.lit.getD []) = some FG)
       (h4 : FG.func = true) (h5 : lp.kind = .TLPAREN) (h5' : lp.hide = false)
       (h6 : collect FG.params 0 0 [] [] r'' = .ok (argsG, rest''))
-      (h7 : ArgsOK ms0 r'' rest'') (h8 : ∀ a ∈ argsG, a ≠ [])
+      (h7 : ArgsOK ms0 r'' rest'') (h8 : ∀ a ∈ argsG, a ≠ []) (hs : Spellable G ∧ Spellable lp)
       (more : ArgsOK ms0 rest'' rest) : ArgsOK ms0 (G :: lp :: r'') rest
 
 theorem ArgsOK.trans {ms0 : List Macro} {a b c : List Tok} (h1 : ArgsOK ms0 a b) (h2 : ArgsOK ms0 b c) : ArgsOK ms0 a c := by
   induction h1 with
   | done _ => exact h2
-  | tok t L rest h more ih => exact .tok t L c h (ih h2)
-  | call G lp r'' FG argsG rest'' rest h1 h2' h3 h4 h5 h5' h6 h7 h8 more _ ih =>
-    exact .call G lp r'' FG argsG rest'' c h1 h2' h3 h4 h5 h5' h6 h7 h8 (ih h2)
+  | tok t L rest h hs more ih => exact .tok t L c h hs (ih h2)
+  | call G lp r'' FG argsG rest'' rest h1 h2' h3 h4 h5 h5' h6 h7 h8 hs more _ ih =>
+    exact .call G lp r'' FG argsG rest'' c h1 h2' h3 h4 h5 h5' h6 h7 h8 hs (ih h2)
 
 theorem ArgsOK.suffix {ms0 : List Macro} {a b : List Tok} (h : ArgsOK ms0 a b) : ∃ pre, a = pre ++ b := by
   induction h with
   | done _ => exact ⟨[], rfl⟩
-  | tok t L rest _ _ ih => obtain ⟨pre, hp⟩ := ih; exact ⟨t :: pre, by rw [hp]; rfl⟩
-  | call G lp r'' FG argsG rest'' rest _ _ _ _ _ _ _ _ _ _ ih1 ih2 =>
+  | tok t L rest _ _ _ ih => obtain ⟨pre, hp⟩ := ih; exact ⟨t :: pre, by rw [hp]; rfl⟩
+  | call G lp r'' FG argsG rest'' rest _ _ _ _ _ _ _ _ _ _ _ ih1 ih2 =>
     obtain ⟨p1, hp1⟩ := ih1
     obtain ⟨p2, hp2⟩ := ih2
     exact ⟨G :: lp :: (p1 ++ p2), by rw [hp1, hp2]; simp⟩
@@ -223,7 +226,7 @@ theorem ArgsOK.raw {ms0 : List Macro} {a b : List Tok} (h : ArgsOK ms0 a b) :
     ∀ x ∈ a.take (a.length - b.length), RawOK x := by
   induction h with
   | done _ => intro x hx; simp at hx
-  | tok t L rest ht more ih =>
+  | tok t L rest ht _ more ih =>
     obtain ⟨pre, hp⟩ := more.suffix
     intro x hx
     have : (t :: L).length - rest.length = (L.length - rest.length) + 1 := by rw [hp]; simp; omega
@@ -231,7 +234,7 @@ theorem ArgsOK.raw {ms0 : List Macro} {a b : List Tok} (h : ArgsOK ms0 a b) :
     rcases List.mem_cons.mp hx with rfl | hx
     · exact ⟨ht.1, ht.2.1, ht.2.2.1, ht.2.2.2.1, ht.2.2.2.2.2⟩
     · exact ih x hx
-  | call G lp r'' FG argsG rest'' rest h1 h2 h3 h4 h5 h5' h6 h7 h8 more ih1 ih2 =>
+  | call G lp r'' FG argsG rest'' rest h1 h2 h3 h4 h5 h5' h6 h7 h8 _ more ih1 ih2 =>
     obtain ⟨p1, hp1⟩ := h7.suffix
     obtain ⟨p2, hp2⟩ := more.suffix
     intro x hx
@@ -251,18 +254,50 @@ theorem ArgsOK.raw {ms0 : List Macro} {a b : List Tok} (h : ArgsOK ms0 a b) :
         · exact ih1 x (by rw [e1]; exact hx)
         · exact ih2 x (by rw [e2]; exact hx)
 
+theorem ArgsOK.spell {ms0 : List Macro} {a b : List Tok} (h : ArgsOK ms0 a b) :
+    ∀ x ∈ a.take (a.length - b.length), Spellable x := by
+  induction h with
+  | done _ => intro x hx; simp at hx
+  | tok t L rest ht hs more ih =>
+    obtain ⟨pre, hp⟩ := more.suffix
+    intro x hx
+    have : (t :: L).length - rest.length = (L.length - rest.length) + 1 := by rw [hp]; simp; omega
+    rw [this, List.take_succ_cons] at hx
+    rcases List.mem_cons.mp hx with rfl | hx
+    · exact hs
+    · exact ih x hx
+  | call G lp r'' FG argsG rest'' rest h1 h2 h3 h4 h5 h5' h6 h7 h8 hs more ih1 ih2 =>
+    obtain ⟨p1, hp1⟩ := h7.suffix
+    obtain ⟨p2, hp2⟩ := more.suffix
+    intro x hx
+    have e : (G :: lp :: r'').take ((G :: lp :: r'').length - rest.length) = G :: lp :: (p1 ++ p2) := by
+      rw [hp1, hp2]
+      have : (G :: lp :: (p1 ++ (p2 ++ rest))) = (G :: lp :: (p1 ++ p2)) ++ rest := by simp
+      rw [this, List.take_left']
+      simp; omega
+    rw [e] at hx
+    have e1 : r''.take (r''.length - rest''.length) = p1 := by rw [hp1]; simp
+    have e2 : rest''.take (rest''.length - rest.length) = p2 := by rw [hp2]; simp
+    rcases List.mem_cons.mp hx with rfl | hx
+    · exact hs.1
+    · rcases List.mem_cons.mp hx with rfl | hx
+      · exact hs.2
+      · rcases List.mem_append.mp hx with hx | hx
+        · exact ih1 x (by rw [e1]; exact hx)
+        · exact ih2 x (by rw [e2]; exact hx)
+
 theorem argsOK_cons_inv {ms0 : List Macro} {t : Tok} {r rest : List Tok} (h : ArgsOK ms0 (t :: r) rest)
     (hl : rest.length < (t :: r).length) :
     (ArgTokOK ms0 t ∧ ArgsOK ms0 r rest) ∨
     (∃ lp r'' FG argsG rest'', r = lp :: r'' ∧ t.kind = .TIDENT ∧ t.hide = false ∧
       macroget ms0 (t.lit.getD []) = some FG ∧ FG.func = true ∧ lp.kind = .TLPAREN ∧ lp.hide = false ∧
       collect FG.params 0 0 [] [] r'' = .ok (argsG, rest'') ∧ ArgsOK ms0 r'' rest'' ∧ (∀ a ∈ argsG, a ≠ []) ∧
-      ArgsOK ms0 rest'' rest) := by
+      (Spellable t ∧ Spellable lp) ∧ ArgsOK ms0 rest'' rest) := by
   cases h with
   | done => exact absurd hl (Nat.lt_irrefl _)
-  | tok _ _ _ ht more => exact .inl ⟨ht, more⟩
-  | call _ lp r'' FG argsG rest'' _ h1 h2 h3 h4 h5 h5' h6 h7 h8 more =>
-    exact .inr ⟨lp, r'', FG, argsG, rest'', rfl, h1, h2, h3, h4, h5, h5', h6, h7, h8, more⟩
+  | tok _ _ _ ht _ more => exact .inl ⟨ht, more⟩
+  | call _ lp r'' FG argsG rest'' _ h1 h2 h3 h4 h5 h5' h6 h7 h8 hs more =>
+    exact .inr ⟨lp, r'', FG, argsG, rest'', rfl, h1, h2, h3, h4, h5, h5', h6, h7, h8, hs, more⟩
 
 /-- the text of a complete invocation, seen by the `collect` of the invocation around it: its tokens
 go to the current argument and the parenthesis count is back where it was -/
